@@ -2,6 +2,7 @@ package main
 
 import (
 	"encoding/json"
+	"fmt"
 
 	"verif/harness/internal/proto"
 )
@@ -30,6 +31,11 @@ func realRun(kind string, objs []sysObj, opts sysOpts) sysRun {
 	return r
 }
 
+func cancelAt(r sysRun, k int) sysRun {
+	r.Cancel = fmt.Sprintf("mut:%d", k)
+	return r
+}
+
 func sysRealHistories() []sysIn {
 	pre := []sysObj{soNs1, soNs2}
 	fin := func(r sysRun, ids ...jid) sysRun {
@@ -52,6 +58,15 @@ func sysRealHistories() []sysIn {
 		{Pre: pre, Runs: []sysRun{realRun("apply", []sysObj{soA, soM, soW2, soD}, sysOpts{SSA: true}), fin(realRun("destroy", nil, sysOpts{Foreground: true}), soA.ID)}},
 		{Pre: pre, Runs: []sysRun{realRun("apply", []sysObj{soNs1, soA, soS, soK}, sysOpts{Policy: 2}), realRun("apply", []sysObj{}, sysOpts{})}},
 		{Pre: pre, Runs: []sysRun{realRun("apply", []sysObj{}, sysOpts{})}},
+		// a second attempt while the dependent of the first attempt is still Terminating (held by a finalizer): the watcher's FIRST
+		// report of it is an object with a deletion timestamp — Terminating, not gone —, its dependency stays
+		{Pre: pre, Runs: []sysRun{realRun("apply", []sysObj{soA, soB}, sysOpts{}), fin(realRun("destroy", nil, sysOpts{}), soB.ID), fin(realRun("destroy", nil, sysOpts{}), soB.ID)}},
+		{Pre: pre, Runs: []sysRun{realRun("apply", []sysObj{soA, soB, soD}, sysOpts{}), fin(realRun("apply", []sysObj{soD}, sysOpts{}), soB.ID), fin(realRun("apply", []sysObj{soD}, sysOpts{}), soB.ID), realRun("destroy", nil, sysOpts{})}},
+		{Pre: pre, Runs: []sysRun{realRun("apply", []sysObj{soD, soR, soE}, sysOpts{}), fin(realRun("destroy", nil, sysOpts{Foreground: true}), soE.ID), fin(realRun("destroy", nil, sysOpts{}), soE.ID)}},
+		// the caller gives up while a request is in flight: the run ends with the context error, every WATCH stream is stopped
+		{Pre: pre, Runs: []sysRun{cancelAt(realRun("apply", []sysObj{soA, soB, soD}, sysOpts{}), 1)}},
+		{Pre: pre, Runs: []sysRun{cancelAt(realRun("apply", []sysObj{soA, soW}, sysOpts{}), 2), realRun("apply", []sysObj{soA, soW}, sysOpts{})}},
+		{Pre: pre, Runs: []sysRun{realRun("apply", []sysObj{soA, soB, soD}, sysOpts{}), cancelAt(realRun("apply", []sysObj{soA}, sysOpts{}), 1), realRun("destroy", nil, sysOpts{})}},
 	}
 }
 
@@ -64,6 +79,10 @@ func genSysReal(out *proto.Out, rng *proto.Rng, tier string) {
 	pool := []sysObj{soA, soB, soC, soD, soR, soK, soL, soS, soE, soM, soW, soW2, soNs2}
 	for i := 0; i < n; i++ {
 		in := sysIn{Pre: []sysObj{soNs1, soNs2}}
+		// ids an earlier run of the history deleted under a finalizer: the object may still be there with its deletion timestamp, and
+		// kstatus calls such an object Terminating whatever is applied to it — it is not applied again (a description "Current once it
+		// exists" would be wrong for it)
+		held := map[string]bool{}
 		for r := 1 + rng.Intn(3); r > 0; r-- {
 			if len(in.Runs) > 0 && rng.Chance(1, 5) {
 				in.Runs = append(in.Runs, realRun("destroy", nil, sysOpts{Foreground: rng.Bool()}))
@@ -100,6 +119,12 @@ func genSysReal(out *proto.Out, rng *proto.Rng, tier string) {
 					objs = append(objs, o)
 				}
 			}
+			for _, o := range objs {
+				if held[idKey(o.ID)] {
+					objs = nil // (dependents would dangle: the run applies nothing)
+					break
+				}
+			}
 			opts := sysOpts{SSA: rng.Bool(), Policy: rng.Intn(3), NoPrune: rng.Chance(1, 6)}
 			if rng.Chance(1, 3) {
 				opts.SkipInvalid = true
@@ -107,7 +132,12 @@ func genSysReal(out *proto.Out, rng *proto.Rng, tier string) {
 			}
 			run := realRun("apply", objs, opts)
 			if rng.Chance(1, 4) {
-				run.Del = map[string]string{idKey(proto.Pick(rng, pool).ID): "finalizer"}
+				hk := idKey(proto.Pick(rng, pool).ID)
+				run.Del = map[string]string{hk: "finalizer"}
+				held[hk] = true
+			}
+			if rng.Chance(1, 6) {
+				run = cancelAt(run, rng.Intn(4))
 			}
 			in.Runs = append(in.Runs, run)
 		}
